@@ -21,8 +21,8 @@ const (
 
 func init() {
 	register(&Property{
-		ID:  "C19",
-		Run: runC19,
+		ID:          "C19",
+		Run:         runC19,
 		Explanation: "Decides the ordering and confinement clauses of the registry install property: (R1) digest check → verification gate → finalize on the success edges, the signed/allowed tests inside the gates, and the bundle variants; (R2) closed caller tables for the install/finalize/policy/rename/state-save entry points; (R3) ExtractBinary writes only after the traversal refusal, only for regular entries, with O_EXCL and a LimitReader/total-size cap, link entries refused, into a private staging directory; (R4) VerifyIndex: lock → load → verify → rollback check → staleness check → save, saving the verified version; CheckRollback refuses fetched<high-water; (R5) atomicfile.WriteFile: temp in the target directory → write → sync → close → rename, and manifest/state are written only through it; (R6) nil verifiers refused and the fail-closed verifier never returns nil.",
 		NotDecided:  []string{"cryptography (trust, index.Verify internals)", "atomicity of rename(2) and fsync on the host file system", "behaviour under a real interruption", "flock semantics"},
 		Assumptions: []string{"os.Rename within one directory is atomic", "os.O_EXCL refuses existing paths including dangling symlinks"},
@@ -249,33 +249,40 @@ func c19R3(c *Ctx) {
 		}
 		return false
 	}
-	gAbs := kit.NewGates()
-	for _, call := range kit.CallsTo(fn, Set(isAbs)) {
-		if a := call.Common().Args; len(a) == 1 && isClean(a[0]) {
-			gAbs.AddEdges(kit.CondEdges(call.Value(), false), "!IsAbs(cleanName)")
+	// the three refusal tests, wherever they are evaluated (in ExtractBinary or in a predicate helper it calls)
+	callCond := func(callee *types.Func, nargs int, want bool) kit.CondMatcher {
+		return func(f *ssa.Function, orig func(ssa.Value) ssa.Value) []kit.CondGate {
+			var out []kit.CondGate
+			for _, call := range kit.CallsTo(f, Set(callee)) {
+				if a := call.Common().Args; len(a) == nargs && isClean(orig(a[0])) && call.Value() != nil {
+					out = append(out, kit.CondGate{Cond: call.Value(), Want: want})
+				}
+			}
+			return out
 		}
 	}
-	gDot := kit.NewGates()
-	for _, call := range kit.CallsTo(fn, Set(hasPrefix)) {
-		if a := call.Common().Args; len(a) == 2 && isClean(a[0]) {
-			gDot.AddEdges(kit.CondEdges(call.Value(), false), "!HasPrefix(cleanName, ../)")
-		}
+	isDD := func(v ssa.Value) bool {
+		k, ok := v.(*ssa.Const)
+		return ok && k.Value != nil && k.Value.Kind() == constant.String && constant.StringVal(k.Value) == ".."
 	}
-	gEq := kit.NewGates().AddEdges(kit.CmpEdges(fn, func(b *ssa.BinOp) (bool, bool) {
-		isDD := func(v ssa.Value) bool {
-			k, ok := v.(*ssa.Const)
-			return ok && k.Value != nil && k.Value.Kind() == constant.String && constant.StringVal(k.Value) == ".."
-		}
-		if (isClean(b.X) && isDD(b.Y)) || (isClean(b.Y) && isDD(b.X)) {
-			switch b.Op {
-			case token.EQL:
-				return true, false
-			case token.NEQ:
-				return true, true
+	eqCond := func(f *ssa.Function, orig func(ssa.Value) ssa.Value) []kit.CondGate {
+		var out []kit.CondGate
+		for _, blk := range f.Blocks {
+			for _, in := range blk.Instrs {
+				b, ok := in.(*ssa.BinOp)
+				if !ok || (b.Op != token.EQL && b.Op != token.NEQ) {
+					continue
+				}
+				if (isClean(orig(b.X)) && isDD(b.Y)) || (isClean(orig(b.Y)) && isDD(b.X)) {
+					out = append(out, kit.CondGate{Cond: b, Want: b.Op == token.NEQ})
+				}
 			}
 		}
-		return false, false
-	}), "cleanName != ..")
+		return out
+	}
+	gAbs := kit.NewGates().AddEdges(kit.DeepCondEdges(fn, callCond(isAbs, 1, false)), "!IsAbs(cleanName)")
+	gDot := kit.NewGates().AddEdges(kit.DeepCondEdges(fn, callCond(hasPrefix, 2, false)), "!HasPrefix(cleanName, ../)")
+	gEq := kit.NewGates().AddEdges(kit.DeepCondEdges(fn, eqCond), "cleanName != ..")
 	c.Dominated(r, "ExtractBinary: writes only for a non-absolute cleaned name", asInstrs(writes), gAbs, "the !filepath.IsAbs(cleanName) edge (test on the CLEANED name)")
 	c.Dominated(r, "ExtractBinary: writes only for a name not starting with ../ after cleaning", asInstrs(writes), gDot, "the !strings.HasPrefix(cleanName, \"../\") edge (test on the CLEANED name)")
 	c.Dominated(r, "ExtractBinary: writes only for a cleaned name other than ..", asInstrs(writes), gEq, "the cleanName != \"..\" edge")
